@@ -77,6 +77,17 @@ func (tr *FnTr) staticCall(x ssa.Value, f *ssa.Function, cc *ssa.CallCommon, fre
 	if m := libModels[name]; m != nil {
 		return m(tr, x, args, cc)
 	}
+	if tr.top.refute && len(f.Blocks) > 0 && f.Recover == nil && tr.depth < 5 && !tr.top.inlining[f] &&
+		f.Pkg != nil && strings.HasPrefix(f.Pkg.Pkg.Path(), modulePath) {
+		if ct := tr.eng.contractFor(name); ct == nil || !ct.Assumed {
+			if tr.top.inlining == nil {
+				tr.top.inlining = map[*ssa.Function]bool{}
+			}
+			tr.top.inlining[f] = true
+			defer delete(tr.top.inlining, f)
+			return tr.inline(x, f, args, free, name)
+		}
+	}
 	if ct := tr.eng.contractFor(name); ct != nil && !(tr.depth == 0 && tr.top.ct == ct && false) {
 		if ct.Inline {
 			return tr.inline(x, f, args, free, name)
@@ -167,6 +178,9 @@ func (tr *FnTr) contractCall(x ssa.Value, f *ssa.Function, ct *FuncContract, arg
 	pre := tr.st
 	ctx := tr.calleeCtx(f, args, nil, pre, pre)
 	for i, c := range ct.Requires {
+		if tr.top.refute {
+			break
+		}
 		g := ctx.goal(c.E)
 		tr.vc.Oblige(tr.prefix+"pre."+name, labelOr(c.Label, i+1), Implies(tr.st.Reach, g), tr.pos(tr.curInstr.Pos()))
 		tr.st.Reach = tr.vc.Def("reach", And(tr.st.Reach, g))
@@ -192,7 +206,11 @@ func (tr *FnTr) contractCall(x ssa.Value, f *ssa.Function, ct *FuncContract, arg
 		if !ct.HasModifies && tr.top.storeChecks {
 			tr.vc.Oblige(tr.prefix+"frame.store", "", Implies(tr.st.Reach, tFalse), tr.pos(tr.curInstr.Pos()))
 		}
-		if !ct.HasModifies {
+		if tr.top.refute {
+			post.Mem = tr.havocAllMem(pre.Mem, "call_"+f.Name())
+			post.Alloc = tr.vc.Fresh("alloc_call", SInt)
+			tr.vc.Assume(Le(pre.Alloc, post.Alloc))
+		} else if !ct.HasModifies {
 			// no frame declared: conservatively havoc everything reachable
 			post.Mem = tr.havocAllMem(pre.Mem, "call_"+f.Name())
 			post.Alloc = tr.vc.Fresh("alloc_call", SInt)
@@ -262,6 +280,15 @@ func (tr *FnTr) havocAllMem(m *Term, tag string) *Term {
 	nm := tr.vc.Fresh("mem_"+tag, SMem)
 	var out *Term = nm
 	priv := tr.allPrivObjs()
+	if tr.top.refute {
+		for _, p := range tr.top.params {
+			for i, lf := range layoutOf(p.T).Leaves {
+				if lf.K == LObj && !lf.Str {
+					priv = append(priv, p.L[i])
+				}
+			}
+		}
+	}
 	for _, o := range priv {
 		out = Store(out, o, Select(m, o))
 	}
@@ -482,6 +509,20 @@ func (tr *FnTr) copyCells(dobj, doff, srcArr, soff, cnt *Term) {
 		src := tr.vc.Def("copy_src", srcArr)
 		for k := int64(0); k < c.Int64(); k++ {
 			a = Store(a, Add(doff, Int(k)), Select(src, Add(soff, Int(k))))
+		}
+		tr.st.Mem = tr.vc.Def("mem", Store(tr.st.Mem, dobj, a))
+		return
+	}
+	if tr.top.refute {
+		bound := tr.top.copyBound
+		if bound == 0 {
+			bound = 8
+		}
+		tr.st.Reach = tr.vc.Def("reach", And(tr.st.Reach, Le(cnt, Int(bound))))
+		a := old
+		src := tr.vc.Def("copy_src", srcArr)
+		for k := int64(0); k < bound; k++ {
+			a = Store(a, Add(doff, Int(k)), Ite(Lt(Int(k), cnt), Select(src, Add(soff, Int(k))), Select(old, Add(doff, Int(k)))))
 		}
 		tr.st.Mem = tr.vc.Def("mem", Store(tr.st.Mem, dobj, a))
 		return
